@@ -193,6 +193,7 @@ func init() {
 	reg(s("OutputLines"), func(in *Interp, fr *frame, args []value) value {
 		return goInt(in.outputNewlines())
 	})
+	reg(s("RestoreOutput"), func(in *Interp, fr *frame, args []value) value { return nil })
 	reg(s("ResetOutput"), func(in *Interp, fr *frame, args []value) value {
 		in.p.out = nil
 		return nil
